@@ -36,7 +36,9 @@ def _path_chain(prog, cg, eff, chk, W1, entry, rewriters, label):
         return
     seen = set()
     for (seq, callee, args, node, caller) in calls:
-        own = [w for w in pw if w.func is caller and w.seq < seq]
+        # the path most recently stored before the call - by the calling function itself or by a helper it
+        # stores the path through; not the path an enclosing caller stored earlier
+        own = [w for w in pw if w.seq < seq][-1:]
         key = (caller.qualname, locstr(node))
         if key in seen:
             continue
@@ -59,7 +61,7 @@ def _path_chain(prog, cg, eff, chk, W1, entry, rewriters, label):
                           'immediate-parent relation: a crate two levels below gets "<this path><its title>;" and '
                           'loses the levels in between, so Crate.path disagrees with CrateParentList / CrateHierarchy'
                           % (inst, ', '.join(sorted(closure))))
-        elif own and any(a is w.value for a in args for w in own):
+        elif own and any(a is w.value or (a == w.value and a[0] != 'unk') for a in args for w in own):
             chk.ok(W1, inst, locstr(node))
         else:
             chk.violation(W1, '%s|%s->%s path argument' % (label, _short(caller.qualname), _short(callee)), locstr(node),
@@ -71,9 +73,20 @@ def _path_chain(prog, cg, eff, chk, W1, entry, rewriters, label):
 
 def padded_fields(prog, chk, W12):
     n = 0
-    for f in sorted(prog.functions.values(), key=lambda x: (x.file or '', x.line)):
-        if f.body is None or f.is_pattern or 'v1/engine_track_impl' not in (f.file or ''):
+    # the 1.x track writers, and the integer -> string formatting helpers they reach wherever those are defined
+    # (the MM:SS formatting shared by two writers may live in a utility header)
+    from .. import callgraph as _cgm
+    cg = _cgm.get(prog)
+    own = [f for f in prog.functions.values()
+           if f.body is not None and not f.is_pattern and 'v1/engine_track_impl' in (f.file or '')]
+    cands = {f.key: f for f in own}
+    for key, (g, _p, _n) in cg.reachable(own, stop=lambda x: not prog.in_repo(x.file)).items():
+        if g.body is None or g.is_pattern or not prog.in_repo(g.file) or key in cands:
             continue
+        if 'string' in (g.ret or '') and g.params and \
+                all(re.search(r'\b(int|long|int64_t|int32_t|unsigned|size_t)\b', p.get('type') or '') for p in g.params):
+            cands[key] = g
+    for f in sorted(cands.values(), key=lambda x: (x.file or '', x.line)):
         # the same string written with a printf-style format: every integer conversion carries the 02 width
         for x in walk(f.body):
             if x.get('kind') == 'StringLiteral' and ':' in (x.get('value') or '') and '%' in (x.get('value') or ''):
